@@ -25,6 +25,7 @@ Inductive exc :=
 | EStopIter       (* StopIteration out of next(...) *)
 | EPrim           (* a primitive refused (cryptography raised: bad key size, bad PKCS#1 padding, InvalidUnwrap, ...) *)
 | ENotEncrypted   (* PGPKey.decrypt on a message without encrypted data: warning, the INPUT object is returned *)
+| EEncrypt        (* PGPEncryptionError *)
 | EAttr           (* AttributeError (only in the pre-repair variant of PGPKey.decrypt) *)
 | EUnmodelled     (* packet kinds outside this model (signatures, literal data, GNU S2K extension, ...) *)
 | EFuel.          (* parser fuel exhausted (excluded by the theorems) *)
@@ -185,17 +186,18 @@ Section Prims.
     d ++ mdc_bytes (sha1 (d ++ [211; 20])).
   Definition seipd_encrypt (alg : Z) (key iv data : bytes) : res bytes :=
     of_opt EPrim (cfb_enc alg key (seipd_plain iv data)).
-  (* IntegrityProtectedSKEDataV1.decrypt: MDC comparison first, then the repeated-octets check; returns what is
-     left of pt after removing block-size + 2 octets (the MDC packet is still at its end) *)
+  (* IntegrityProtectedSKEDataV1.decrypt: MDC comparison first; the 22 octets of the MDC packet are then removed
+     (`del pt[-22:]`), the repeated-octets check is made on what is left, and the result is the data alone *)
   Definition seipd_decrypt (alg : Z) (key ct : bytes) : res bytes :=
     match cfb_dec alg key ct with
     | None => Raise EPrim
     | Some pt =>
       let expected := [211; 20] ++ sha1 (firstn (length pt - 20) pt) in
       if negb (beqb (lastn 22 pt) expected) then Raise EDecrypt else
+      let body := firstn (length pt - 22) pt in
       let bs := block_octets alg in
-      let iv := firstn bs pt in
-      let pt1 := skipn bs pt in
+      let iv := firstn bs body in
+      let pt1 := skipn bs body in
       let ivl2 := firstn 2 pt1 in
       let pt2 := skipn 2 pt1 in
       if negb (beqb (lastn 2 iv) ivl2) then Raise EDecrypt else Ok pt2
@@ -250,12 +252,18 @@ Section Prims.
     else if pkalg =? 18 then
       match ct with CEcdh xy c => bind (ecdh_decrypt_m k xy c) pkesk_open | _ => Raise EType end
     else Raise ENotImpl.
-  (* PGPKey.encrypt: new PKESK for this key, encrypt_sk *)
+  (* PGPKey.encrypt: new PKESK for this key, encrypt_sk (which refuses a session key whose length is not the key
+     size of the cipher: the recipient slices exactly that many octets) *)
   Definition pkesk_encrypt (k : pkey) (seed : bytes) (alg : Z) (sk : bytes) : res esk :=
-    let m := pkesk_m alg sk in
-    if k_alg k =? 1 then bind (rsa_encrypt_ct (k_fp k) seed m) (fun ct => Ok (PK (k_id k) 1 ct))
-    else if k_alg k =? 18 then bind (ecdh_encrypt_ct k seed m) (fun ct => Ok (PK (k_id k) 18 ct))
-    else Raise ENotImpl.
+    match key_octets alg with
+    | None => Raise ENotImpl
+    | Some n =>
+      if negb (length sk =? n)%nat then Raise EEncrypt else
+      let m := pkesk_m alg sk in
+      if k_alg k =? 1 then bind (rsa_encrypt_ct (k_fp k) seed m) (fun ct => Ok (PK (k_id k) 1 ct))
+      else if k_alg k =? 18 then bind (ecdh_encrypt_ct k seed m) (fun ct => Ok (PK (k_id k) 18 ct))
+      else Raise ENotImpl
+    end.
 
   (* ---------- SKESK v4 ---------- *)
   Definition s2k_derive (symalg : Z) (sp : s2kspec) (pass : bytes) : res bytes :=
